@@ -322,8 +322,12 @@ func partSched(c *vfw.Ctx, t *testing.T) {
 	if c.Thorough() {
 		bound = 2
 	}
-	for _, sc := range scenarios() {
-		st := e3.Explore(c, t, sc, bound)
+	for i, sc := range scenarios() {
+		b := bound
+		if i >= 2 && b > 1 {
+			b = 1 // thorough: two departures on the select/close and select/deselect/T7 scenarios only
+		}
+		st := e3.Explore(c, t, sc, b)
 		c.Add("e3_executions", int64(st.Execs))
 	}
 }
